@@ -76,6 +76,9 @@ def rand_cfg(rng, dyn=False):
             c["Tmin"] = 0; c["Tmax"] = T + 300
         else:
             c["Tmin"] = T; c["Tmax"] = T + 300
+    elif rng.random() < 0.4:
+        # a fixed threshold with the optional limits set as well: valid, and the limits must stay without effect
+        c["Tmin"], c["Tmax"] = rng.choice([(T - 100 if T > 100 else 1, 0), (0, T + 300), (max(1, T - 200), T + 200), (T + 50, T + 400)])
     return c
 
 
@@ -401,6 +404,76 @@ def run(ctx):
                                   event=line - 1 - starts[si], observed=events[line - 1]))
             violations.append(dict(key=key, replay=rp, what="script %d (%s, kind=%s) event %d cfg=%s" % (
                 si, scripts[si]["origin"], scripts[si]["kind"], line - 1 - starts[si], json.dumps(scripts[si]["cfg"]))))
+    # the configuration path in front of the detector: generated config.toml -> ParseConfig + LoadMotionConfig(model)
+    cfgpath = {}
+    if prop in ("C07", "C08", "C15"):
+        import fam_e2e
+        rng2 = ctx.rng
+        cfgs = []
+        for i in range(40 if tier == "quick" else 400):
+            T = rng2.choice([100, 2900, 30000])
+            mset = {"dynamic-threshold": rng2.random() < 0.5, "temp-thresh": T, "delta-thresh": rng2.choice([1, 10, 50]),
+                    "count-thresh": rng2.choice([1, 3]), "frame-compare-gap": rng2.choice([1, 2, 45]),
+                    "use-one-diff-only": rng2.random() < 0.5, "trigger-frames": rng2.choice([0, 1, 2, 9]),
+                    "warmer-only": rng2.random() < 0.5, "edge-pixels": rng2.choice([0, 0, 1, 2])}
+            r = rng2.random()          # the optional limits, valid in every combination (0 = unset)
+            if r < 0.3:
+                mset["temp-thresh-min"] = rng2.choice([T - 100, T, T + 50])
+            elif r < 0.55:
+                mset["temp-thresh-max"] = rng2.choice([T + 300, T, T - 50])
+            elif r < 0.8:
+                mset["temp-thresh-min"], mset["temp-thresh-max"] = T - 100, T + 300
+            if rng2.random() < 0.3:   # only some keys set: the rest are the camera model's defaults, not compared
+                for k in rng2.sample(sorted(mset), rng2.randint(1, 5)):
+                    del mset[k]
+            settings = dict(min=1, max=2, preview=1, const=False, throttle=False, motion=mset)
+            model = rng2.choice(["lepton3", "lepton3.5", "boson"])
+            # keys that are not set keep the camera model's defaults (go-config DefaultThermalMotion, a pinned dependency);
+            # an unset limit is 0
+            want = {"dynamic-threshold": True, "temp-thresh": 28000 if model == "lepton3.5" else 2900,
+                    "delta-thresh": 200 if model == "lepton3.5" else 50, "count-thresh": 3, "frame-compare-gap": 45,
+                    "use-one-diff-only": True, "trigger-frames": 2, "warmer-only": True, "edge-pixels": 1,
+                    "temp-thresh-min": 0, "temp-thresh-max": 0}
+            want.update(mset)
+            cfgs.append(dict(Toml=fam_e2e.toml(settings), Model=model,
+                             Set={k: (("true" if v else "false") if isinstance(v, bool) else str(v)) for k, v in want.items()}))
+        binc = ctx.go_test_build("./cmd/thermal-recorder", "tr.test")
+        inp, outp = ctx.path("run", "motioncfg.json"), ctx.path("run", "motioncfg.ndjson")
+        json.dump(dict(configs=cfgs), open(inp, "w"))
+        r = subprocess.run([binc, "-test.run", "^TestVerifMotionConfig$"], env=dict(os.environ, VERIF_SCRIPT=inp, VERIF_OUT=outp),
+                           capture_output=True, text=True, timeout=600)
+        if r.returncode != 0 or not os.path.exists(outp):
+            raise vlib.Infra("motion config driver failed: " + (r.stdout + r.stderr)[-2500:])
+        mev = vlib.read_ndjson(outp)
+        if len(mev) != len(cfgs):
+            raise vlib.Infra("motion config driver: %d results for %d configs" % (len(mev), len(cfgs)))
+        mviol, _ = judge(ctx, outp, "motioncfgmon")
+        for (line, tags) in mviol:
+            for t in tags:
+                if t.startswith("ANY:"):
+                    t = prop + t[3:]
+                if t.startswith(prop + ":") and t not in seen:
+                    seen.add(t)
+                    rp = vlib.save_replay(ctx, t.replace(":", "_"), dict(family="detect", property=prop, clause=t, config=cfgs[mev[line - 1]["i"]],
+                                          observed=mev[line - 1]))
+                    violations.append(dict(key=t, replay=rp, what=json.dumps(mev[line - 1])[:300]))
+                elif not t.startswith(prop + ":"):
+                    others[t] = others.get(t, 0) + 1
+        cfgpath = dict(configs=len(cfgs), keys_compared=sum(len(e.get("pairs") or []) for e in mev))
+    e2e_bad = {}
+    if prop == "C07":
+        # "gap frames earlier, or the earliest frame since start-up or the last camera reset": a bad frame is neither -
+        # runMain with bad frames followed by a changed scene; files vs. the SystemTrace.tla prediction
+        import fam_e2e
+        bine = ctx.go_test_build("./cmd/thermal-recorder", "tr.test")
+        bruns = fam_e2e.c13_runs(ctx, bine)
+        for v in fam_e2e.judge_c11(ctx, bruns, bine):
+            if "motion-files-differ" in v["key"] or "daemon-crashed" in v["key"]:
+                key = "C07:e2e-detection-across-bad-frame-differs"
+                if key not in seen:
+                    seen.add(key)
+                    violations.append(dict(v, key=key))
+        e2e_bad = dict(runs=len(bruns), bad_frames=sum(1 for r in bruns if r["kind"] == "predict" for e in r["model_events"] if e["ev"] == "bad"))
     raw_level = {}
     if prop == "C08":
         # the parser in front of the detector: border zeros (the one value the parsers single out) must not decide
@@ -529,7 +602,7 @@ def run(ctx):
                     rule="TLC -simulate behaviours of the design model (4x3) + seeded boundary-biased streams 3x3..8x6 "
                          "(values at T, T+-1, delta, delta+-1, count-1/count/count+1 pixels, 0/65535 borders, FFC periods, "
                          "resets, paired streams); distinct by (cfg, steps)",
-                    conformance=conf, clauses_of_other_properties_fired=others, processor_level_resets=proc_level, raw_parser_frames=raw_level,
+                    conformance=conf, clauses_of_other_properties_fired=others, processor_level_resets=proc_level, raw_parser_frames=raw_level, config_path=cfgpath, e2e_bad_frame_runs=e2e_bad,
                     recording_start_arguments=chain_stats)
     return vlib.finish(ctx, violations, coverage, ASSUME)
 
